@@ -48,9 +48,17 @@ def _trace(line):
     return ev, rs
 
 
-def _proj(keep):
-    """comparator that projects the event trace of a session to the kinds a property pins (plus the call results)"""
+def _proj(keep, soft_events=False, soft_results=False):
+    """comparator that projects the event trace of a session to the kinds a property pins (plus the call results).
+    soft_*: a difference in that part is not by itself a failure of the property (the property does not fix it, the model
+    does): it is reported as a broken correspondence - reason prefixed with 'corr:' - unless a direct predicate fails too"""
     def cmp(case, impl, model):
+        r = cmp0(case, impl, model)
+        if r and ((r == "call results differ" and soft_results) or (r != "call results differ" and not r.startswith("the real client panicked") and soft_events)):
+            return "corr:" + r
+        return r
+
+    def cmp0(case, impl, model):
         if not case.startswith("S "):
             return None if impl == model else "implementation and model differ"
         if impl.startswith("PANIC") or impl == "HANG":
@@ -82,11 +90,56 @@ CLIENT_ASSUME = ["net.Conn delivers bytes in order and honours armed deadlines (
                  "the verif hook VerifAttachConn only sets the client's conn field (attach mode starts with connection 0 established; connect() itself is exercised in tcp mode)",
                  "reply frames handed to the client are encoded with rscp.Write on the harness's own cipher states (C01 ties Write to the model)"]
 
+def _json_value(hexs):
+    """the JSON value of a hex encoded document: numbers as exact decimals, objects without key order"""
+    import json, decimal
+    return json.loads(bytes.fromhex(hexs).decode("utf-8"), parse_float=decimal.Decimal, parse_int=decimal.Decimal)
+
+
 def cmp_c13(case, impl, model):
     if case.startswith("JOUTC "):
         # scalar/container collision under one tag: the property pins validity and "no crash", not the rendering
         return None if impl.split(" ")[0] == model.split(" ")[0] else "one side fails where the other renders"
-    return None if impl == model else "the rendered document differs from the model's"
+    if impl == model:
+        return None
+    # the property fixes the JSON value that is printed, not its spelling (white space, key order inside an object,
+    # the way a number or an escape is written)
+    if impl.startswith("OK ") and model.startswith("OK "):
+        try:
+            if _json_value(impl[3:]) == _json_value(model[3:]):
+                return "corr:the document is spelled differently from the model's (same JSON value)"
+        except Exception:
+            return "the output is not one valid JSON document"
+    return "the rendered document differs from the model's"
+
+
+def cmp_c15(case, impl, model):
+    """C15 pins status, which streams carry output, the absence of a panic trace, the frames sent - and the JSON value on
+    standard output (not its spelling)"""
+    if impl == model:
+        return None
+    li, lm = impl.split(" || ", 1), model.split(" || ", 1)
+    ki, km = _kv(li[0]), _kv(lm[0])
+    so_i, so_m = ki.pop("stdout", ""), km.pop("stdout", "")
+    if ki != km or li[1:] != lm[1:]:
+        return "implementation and model differ"
+    if so_i == so_m:
+        return None
+    try:
+        if so_i not in ("", "-") and so_m not in ("", "-") and _json_value(so_i) == _json_value(so_m):
+            return "corr:standard output is spelled differently from the model's (same JSON value)"
+    except Exception:
+        pass
+    return "implementation and model differ (standard output)"
+
+
+def soft_eq(case, impl, model):
+    """C02: the verdict on arbitrary bytes is pinned by C03; for C02 a different verdict is a broken correspondence only"""
+    if impl == model:
+        return None
+    if impl.startswith("PANIC") or impl == "HANG":
+        return "decoding panics or hangs: " + impl[:160]
+    return "corr:implementation and model differ"
 
 
 def extra_c17(work, tier, seed, stats):
@@ -121,19 +174,19 @@ CODEC_ASSUME = ["github.com/azihsoyn/rijndael256 + crypto/cipher CBC compute the
 
 PROPS = {
     "C01": {"exec": "C01", "compare": cmp_c01, "assumptions": CODEC_ASSUME},
-    "C02": {"exec": "C02", "assumptions": CODEC_ASSUME + ["PARTIAL: absence of Go panics and wall-clock promptness are established by the correspondence run only (a recovered panic or a 20 s timeout is a mismatch)"]},
+    "C02": {"exec": "C02", "compare": soft_eq, "assumptions": CODEC_ASSUME + ["PARTIAL: absence of Go panics and wall-clock promptness are established by the correspondence run only (a recovered panic or a 20 s timeout is a mismatch)"]},
     "C03": {"exec": "C03", "assumptions": CODEC_ASSUME},
     "C04": {"exec": "C04", "assumptions": CODEC_ASSUME},
     "C16": {"exec": "C16", "assumptions": ["the error text of NewClient names a missing field by the words address / username / password / key, and a bad checksum option by UseChecksum"]},
     "C18": {"exec": "C18", "assumptions": ["github.com/spali/go-slicereader delivers the arguments in order and reports the end of the slice as EOS"]},
     "C05": {"exec": "C05", "compare": _proj(_k("WRITE")), "assumptions": CODEC_ASSUME + CLIENT_ASSUME},
     "C06": {"exec": "C06", "compare": _proj(_k("FRAME")), "assumptions": CODEC_ASSUME + CLIENT_ASSUME + ["the loopback device never calls package rscp: it decrypts with crypto/cipher + rijndael256 under its own key padding and per-connection IV"]},
-    "C07": {"exec": "C07", "compare": _proj(_k("READ", "WRITE")), "assumptions": CODEC_ASSUME + CLIENT_ASSUME},
+    "C07": {"exec": "C07", "compare": _proj(_k("READ", "WRITE"), soft_events=True), "assumptions": CODEC_ASSUME + CLIENT_ASSUME},
     "C08": {"exec": "C08", "compare": _proj(_k("FRAME")), "assumptions": CODEC_ASSUME + CLIENT_ASSUME + ["the peer answers each request it receives once and in order (the scripted device does)"]},
     "C09": {"exec": "C09", "compare": _proj(_k("WRITE", "FRAME")), "assumptions": CODEC_ASSUME + CLIENT_ASSUME},
-    "C10": {"exec": "C10", "compare": _proj(_k("SETWD", "SETRD", "WRITE", "READ", "CLOSE")),
+    "C10": {"exec": "C10", "compare": _proj(_k("SETWD", "SETRD", "WRITE", "READ", "CLOSE"), soft_events=True, soft_results=True),
             "assumptions": CLIENT_ASSUME + ["PARTIAL: wall-clock time, the scheduler and the kernel honouring deadlines are outside the model; time is virtual in the scripted connection"]},
-    "C11": {"exec": "C11", "compare": _proj(lambda e: _logs_dump_tree(e) or e.startswith("WRITE")),
+    "C11": {"exec": "C11", "compare": _proj(lambda e: _logs_dump_tree(e) or e.startswith("WRITE"), soft_events=True, soft_results=True),
             "assumptions": CLIENT_ASSUME + ["PARTIAL: fmt/logrus rendering is not modelled; the rendered log text is scanned (literal, hex, base64, byte dumps parsed back)",
                                             "ciphertext does not contain the password as a substring (cipher_hides premise of C11_no_secret)"]},
     "C12": {"exec": "C12", "needs": ["e3dc.test"],
@@ -142,7 +195,7 @@ PROPS = {
     "C13": {"exec": "C13", "needs": ["e3dc.test"], "compare": cmp_c13,
             "assumptions": ["number, string and time formatting of encoding/json / strconv / time (oracle table per case)",
                             "for a tag used for both a scalar and a container only validity and the absence of a crash are compared (the property does not fix that rendering)"]},
-    "C15": {"exec": "C15", "needs": ["e3dc", "e3dc.test"],
+    "C15": {"exec": "C15", "needs": ["e3dc", "e3dc.test"], "compare": cmp_c15,
             "assumptions": ["PARTIAL: jnovack/flag (flag syntax, environment variables, config file), os (files, stdin) and the process exit path are not modelled; they are exercised through the real binary",
                             "the request text's JSON syntax is handled by encoding/json (the model starts at the syntax tree)"]},
     "C17": {"exec": "C17", "race": True, "needs": ["footprint"], "extra": extra_c17,
